@@ -95,7 +95,7 @@ PROPS = {
         cases_mod="CasesTz", check_fn="check_C18", shard=40,
         extra_inputs_cmd=["python3", "lib/tz_oracle.py", "{tier}", "{seed}"],
         rule="(i) real zone files: the vendored set under corpus/tz plus a seed-chosen sample of /usr/share/zoneinfo (thorough: all ~1200 non-leap-second files); timestamps = each of the last 14 and first 2 transitions -1/0/+1 s, the second-exact switch-overs of the footer rule (found by bisection on CPython's zoneinfo) -1/0/+1 s in several years up to 2499, and random instants; expected offsets from CPython's zoneinfo. (ii) synthesized v1/v2/v3 files from an AST (0-40 sorted transitions incl. gaps of 1-2 s, 1-6 types, footer none/fixed/alternating with Jn, n, Mm.w.d dates in both hemispheres, times incl. negative/over-24h for v3, quoted designations, arbitrary skipped sections); timestamps at transitions and rule switch-overs +-1 s (years 1900-2500) and random; expected offsets from TzSpec.spec_lookup on the AST. Non-trivial: every case.",
-        explanation="Proved for the model (props/C18.v): for every parsed structure with sorted transitions that passes the reader's validation, every in-range timestamp and every UTC year strictly inside the range, to_local_time_type is exactly TzSpec.spec_lookup (table scan, Jn / n / Mm.w.d rule dates, switch-over timestamps, the four-way comparison). Byte level: the reader applied to the RFC 8536 layout of a version 2/3 file returns the transitions and types laid out (C18_decode_partial), the POSIX TZ string parser applied to any spelling of a rule that the footer grammar allows (alphabetic or quoted designations, optional signs, padded hours, omitted zero minutes/seconds, omitted DST offset and /time) returns that rule (C18_footer, C18_footer_grammar), and the compositions C18_file, C18_file_grammar. Not proved: version-1 files, non-empty leap/indicator sections - tied by the run on synthesized files (both abbreviated and canonical footers; expected offsets from TzSpec on the AST) and real zone files (expected offsets from CPython zoneinfo).",
+        explanation="Proved for the model (props/C18.v): for every parsed structure with sorted transitions that passes the reader's validation, every in-range timestamp and every UTC year strictly inside the range, to_local_time_type is exactly TzSpec.spec_lookup (table scan, Jn / n / Mm.w.d rule dates, switch-over timestamps, the four-way comparison). Byte level: the reader applied to the RFC 8536 layout of a version 2/3 file returns the transitions and types laid out (C18_decode_partial), the POSIX TZ string parser applied to any spelling of a rule that the footer grammar allows (alphabetic or quoted designations, optional signs, padded hours, omitted zero minutes/seconds, omitted DST offset and /time) returns that rule (C18_footer, C18_footer_grammar), and the compositions C18_file, C18_file_grammar; version-1 files (C18_file_v1) and version 2/3 files with any version-1 block and any skipped sections (C18_file_whole, C18_file_whole_norule). Not expressible as a theorem: that real files are such layouts - tied by the run on synthesized files (both abbreviated and canonical footers; expected offsets from TzSpec on the AST) and real zone files (expected offsets from CPython zoneinfo).",
         trusted_base=TB_COMMON + ["hook H2 (cargo feature astrolabe_verif): tzif_offsets(bytes, timestamps)", "CPython 3 zoneinfo as the reference evaluator on real zone files"],
         assumptions=ASSUME_COMMON + ["/etc/localtime and the wall clock are parameters; Offset::Local is exercised separately"],
     ),
